@@ -12,22 +12,22 @@ Local Open Scope Z_scope.
 Lemma ExactW_eqb0 (x : AF) (a : AZ) : ExactW x a -> eqb x zero = eqb a zero.
 Proof. intros H. exact (ExactW_eqb x 0%float a 0 H (proj1 Exact_zero)). Qed.
 
-Lemma ExactW_zdiv (x y : AF) (a b c : AZ) : ExactW x a -> ExactW y b -> div a b = Ok c -> Z.abs c < 2 ^ 53 ->
+Lemma ExactW_zdiv (x y : AF) (a b c : AZ) : ExactW x a -> ExactW y b -> True -> div a b = Ok c -> Z.abs c < 2 ^ 53 ->
   exists z, div x y = Ok z /\ ExactW z c.
 Proof.
-  intros Hx Hy E Hc. apply z_div_Ok in E as [Hb Ha]. eexists; split; [reflexivity|].
+  intros Hx Hy _ E Hc. apply z_div_Ok in E as [Hb Ha]. eexists; split; [reflexivity|].
   exact (ExactW_div x y a b c Hx Hy Hb Ha Hc).
 Qed.
 
 (* the run over the integers goes through (every division by the leading coefficient is exact) and every pass fits
    (polydiv_fits: Proofs/PolyExactDiv.v) -> the float run returns the images of the integer quotient and remainder *)
 Lemma polydiv_exact_float_run_lemma (u v : list PrimFloat.float) (uz vz q0 r0 : list Z) :
-  Forall2 ExactW u uz -> Forall2 ExactW v vz -> polydiv_fits (ZA := AZ) Z.abs uz vz ->
+  Forall2 ExactW u uz -> Forall2 ExactW v vz -> polydiv_fits (ZA := AZ) Z.abs (fun _ _ => True) uz vz ->
   polydiv (A := AZ) uz vz = Ok (inl (q0, r0)) ->
   exists q r, polydiv (A := AF) u v = Ok (inl (q, r)) /\ Forall2 ExactW q q0 /\ Forall2 ExactW r r0.
 Proof.
   intros Hu Hv Hf E.
-  destruct (gen_polydiv _ _ EL_weak ExactW_eqb0 ExactW_zdiv u v uz vz _ Hu Hv Hf E) as (o & Eo & Ro).
+  destruct (gen_polydiv _ _ _ EL_weak ExactW_eqb0 ExactW_zdiv u v uz vz _ Hu Hv Hf E) as (o & Eo & Ro).
   destruct o as [[q r]|e]; [|contradiction]. exists q, r. split; [exact Eo|]. exact Ro.
 Qed.
 
